@@ -226,6 +226,54 @@ def run(chk):
         if e: return (f'sound#reported equivalent but semantics differ:{name}', f'{a} ~ {b} reported equivalent ({name}), but only one of them matches the observation sequence {w}', {'p': a, 'q': b})
     chk.bounded('tempting but invalid rewrites are not taken', TEMPTING, check_tempting, classify=lambda c: c[0], bound=f'{len(TEMPTING)} pairs (qualifier distribution, commutation of FOLLOWEDBY, comparison vs observation AND, absorption); witness searched on {len(tseqs)} timed sequences')
 
+    # ---- comparison expressions over several object types inside one observation expression (an observation is matched against ONE object, so a conjunct
+    #      of another type can never hold; every observation of this universe is an object of a single type)
+    MIXED = ["[b:x = 1 AND (a:y = 2 OR b:z = 3)]", "[b:x = 9 AND (a:y = 2 OR b:z = 7)]", "[b:x = 1 AND b:z = 3]", "[b:x = 9 AND b:z = 7]", "[c:k = 1 OR (b:x = 1 AND (a:y = 2 OR b:z = 3))]", "[c:k = 1]",
+             "[c:k = 1 OR (b:x = 1 AND b:z = 3)]", "[a:x = 1 AND (a:y = 2 OR b:z = 3)]", "[a:x = 1 AND a:y = 2]", "[(a:y = 2 OR b:z = 3) AND b:x = 1]", "[a:y = 2 OR b:z = 3]", "[b:z = 3 OR a:y = 2]",
+             "[(b:x = 1 OR a:x = 1) AND (b:z = 3 OR a:y = 2)]", "[a:x = 1 AND (a:y = 2 OR b:z = 3) AND (a:y = 2 OR c:k = 1)]", "[b:z = 3 AND (a:y = 2 OR b:x = 1)] FOLLOWEDBY [a:x = 1 AND (b:z = 3 OR a:y = 2)]"]
+    def P_(t, k): return (t, (('key', k),))
+    mobs = [{P_('b', 'x'): v1, P_('b', 'z'): v2} for v1 in (1, 9) for v2 in (3, 7)] + [{P_('a', 'x'): 1, P_('a', 'y'): 2}, {P_('a', 'y'): 2}, {P_('a', 'x'): 1}, {P_('a', 'x'): 1, P_('a', 'y'): 3}, {P_('c', 'k'): 1}, {P_('c', 'k'): 2}, {P_('b', 'x'): 1}]
+    mseqs = [[(0, o)] for o in mobs] + [[(0, o1), (1, o2)] for o1 in mobs for o2 in mobs]
+    msig = {x: tuple(matches(read(x), sq) for sq in mseqs) for x in MIXED}
+
+    def check_mixed(case):
+        a, b = case
+        try: e1 = equivalent_patterns(a, b); e2 = equivalent_patterns(b, a)
+        except Exception as ex: return (f'total#never fails:{type(ex).__name__}', f'equivalent_patterns({a!r}, {b!r}) raised {type(ex).__name__}: {str(ex)[:100]}', {})
+        if a == b and not e1: return ('relation#reflexive', f'{a} is not equivalent to itself', {})
+        if e1 != e2: return ('relation#symmetric', f'{a} ~ {b} is {e1} but the converse is {e2}', {})
+        if e1 and msig[a] != msig[b]:
+            w = next(sq for sq, u, v in zip(mseqs, msig[a], msig[b]) if u != v)
+            return ('sound#reported equivalent but semantics differ:comparisons over several object types', f'{a} ~ {b} reported equivalent, but only one of them matches {w}', {'p': a, 'q': b})
+        if not e1 and a != b and msig[a] == msig[b] and {a, b} in ({MIXED[10], MIXED[11]},):
+            return ('law#documented rewrite recognised:commutativity of OR (comparison), two object types', f'{a} !~ {b}', {})
+    # each pattern is also compared with itself AFTER all the others were processed (normalisation must not leave anything behind in shared nodes)
+    chk.bounded('comparisons over several object types in one observation expression', [(a, b) for a in MIXED for b in MIXED] + [(a, a) for a in MIXED], check_mixed, classify=lambda c: c,
+                bound=f'{len(MIXED)} patterns, all ordered pairs, then each with itself again; meaning compared on {len(mseqs)} sequences of single-type observations')
+    # known finding: a comparison AND whose operands share no object type is syntactically valid but refused by the pattern object model
+    try:
+        equivalent_patterns("[a:x = 1 AND b:x = 1]", "[a:x = 1 AND b:x = 1]")
+    except ValueError as ex:
+        if 'same object type' in str(ex): chk.violation('total#never fails:comparison AND whose operands share no object type', f"equivalent_patterns(\"[a:x = 1 AND b:x = 1]\", itself) raised ValueError: {ex}", {'pattern': "[a:x = 1 AND b:x = 1]"})
+        else: chk.violation('total#never fails:ValueError', f"equivalent_patterns(\"[a:x = 1 AND b:x = 1]\", itself) raised ValueError: {ex}", {})
+    except Exception as ex:
+        chk.violation(f'total#never fails:{type(ex).__name__}', f"equivalent_patterns(\"[a:x = 1 AND b:x = 1]\", itself) raised {type(ex).__name__}: {ex}", {})
+
+    # ---- cascades: documented rewrites applied one after the other (a simplification that only becomes possible after another one)
+    CASCADES = [
+        ("(([a:b = 1] OR [a:b = 1]) WITHIN 5 SECONDS) OR ([a:b = 1] WITHIN 5 SECONDS)", "[a:b = 1] WITHIN 5 SECONDS", 'idempotence under a qualifier, then idempotence'),
+        ("[((a:b = 1 OR a:b = 1) AND a:c = 2) OR (a:b = 1 AND a:c = 2)]", "[a:b = 1 AND a:c = 2]", 'idempotence under AND, then idempotence'),
+        ("[(a:b = 1 OR a:b = 1) OR ((a:b = 1 OR a:b = 1) AND a:c = 2)]", "[a:b = 1]", 'idempotence, then absorption (comparison)'),
+        ("([a:b = 1] OR [a:b = 1]) OR (([a:b = 1] OR [a:b = 1]) AND [a:c = 2])", "[a:b = 1]", 'idempotence, then absorption (observation)'),
+        ("(([a:b = 1] OR [a:b = 1]) FOLLOWEDBY [a:c = 2]) OR ([a:b = 1] FOLLOWEDBY [a:c = 2])", "[a:b = 1] FOLLOWEDBY [a:c = 2]", 'idempotence under FOLLOWEDBY, then idempotence'),
+        ("(([a:b = 1] OR [a:b = 1]) REPEATS 2 TIMES) OR ([a:b = 1] REPEATS 2 TIMES)", "[a:b = 1] REPEATS 2 TIMES", 'idempotence under REPEATS, then idempotence'),
+        ("([a:b = 1] OR ([a:b = 1] OR [a:b = 1])) AND [a:c = 2]", "[a:b = 1] AND [a:c = 2]", 'associativity, then idempotence twice'),
+        ("[a:b = 1 AND (a:c = 2 OR (a:c = 2 OR a:c = 2))]", "[a:b = 1 AND a:c = 2]", 'associativity, then idempotence twice (comparison)'),
+        ("(([a:b = 1] AND [a:c = 2]) OR ([a:c = 2] AND [a:b = 1])) START t'2020-01-01T00:00:00Z' STOP t'2020-01-01T00:00:10Z'", "([a:b = 1] AND [a:c = 2]) START t'2020-01-01T00:00:00Z' STOP t'2020-01-01T00:00:10Z'", 'commutativity, then idempotence under START/STOP'),
+        ("[a:b = 1 AND (a:c = 2 OR a:c = 1)] OR [(a:b = 1 AND a:c = 2) OR (a:b = 1 AND a:c = 1)]", "[(a:c = 1 AND a:b = 1) OR (a:c = 2 AND a:b = 1)]", 'distribution, commutativity, then idempotence of observation OR'),
+    ]
+    chk.bounded('documented rewrites in cascade', CASCADES, check_law, classify=lambda c: c[2], bound=f'{len(CASCADES)} instances where one documented rewrite enables the next')
+
     # ---- special-value canonicalisation (documented rewrites of the normaliser): CIDR networks and registry-key case, against integer arithmetic
     from stix2.equivalence.pattern.transform.specials import _mask_bytes
     def mask_cases():
